@@ -362,10 +362,97 @@ func genCase(rng *rand.Rand) *Case {
 			rng.Shuffle(len(c.Rules), func(a, b int) { c.Rules[a], c.Rules[b] = c.Rules[b], c.Rules[a] })
 		}
 	}
+	if rng.Intn(8) == 0 {
+		if nc := genNearSatisfied(rng); nc != nil {
+			c = nc
+		}
+	}
 	if rng.Intn(10) == 0 {
 		injectHazard(rng, c)
 		c.Origin += "+hazard"
 	}
+	return c
+}
+
+// genNearSatisfied builds the rules first and then a region that fills them (right stores, right
+// roles, exactly Count peers each) and perturbs it by at most one edit, so that satisfied regions and
+// their near misses (one role off, one peer too many / too few) are well represented.
+func genNearSatisfied(rng *rand.Rand) *Case {
+	c := &Case{Origin: "random/near-satisfied"}
+	plain := rng.Intn(2) == 0
+	c.Stores = genStores(rng, 5+rng.Intn(4), plain, false, 3, 3)
+	k := 1 + rng.Intn(3)
+	for i := 0; i < k; i++ {
+		r := genRule(rng, i, false)
+		if r.Count > 3 {
+			r.Count = 3
+		}
+		c.Rules = append(c.Rules, r)
+	}
+	def := reading{kfLookup: true, kfExclName: true, kfExclSpec: true, eaLookup: true, eaExcl: true, vfCons: true, vfLoc: true, missSame: true}
+	used := map[uint64]bool{}
+	ids := rng.Perm(40)
+	haveLeader := false
+	for ri := range c.Rules {
+		r := &c.Rules[ri]
+		need := r.Count
+		for _, si := range rng.Perm(len(c.Stores)) {
+			st := &c.Stores[si]
+			if need == 0 || len(c.Peers) >= maxN {
+				break
+			}
+			if ok, _ := storeFitsRule(st, r, def); !ok || used[st.ID] {
+				continue
+			}
+			if r.Role == "leader" && haveLeader {
+				break
+			}
+			p := PeerSpec{ID: uint64(ids[len(c.Peers)] + 1), Store: st.ID, Learner: r.Role == "learner"}
+			if r.Role == "leader" {
+				haveLeader = true
+				c.Leader = p.ID
+			}
+			used[st.ID] = true
+			c.Peers = append(c.Peers, p)
+			need--
+		}
+	}
+	if len(c.Peers) == 0 {
+		return nil
+	}
+	if !haveLeader {
+		var vs []int
+		for i, p := range c.Peers {
+			if !p.Learner {
+				vs = append(vs, i)
+			}
+		}
+		if len(vs) == 0 {
+			c.Peers[0].Learner = false
+			vs = []int{0}
+		}
+		c.Leader = c.Peers[vs[rng.Intn(len(vs))]].ID
+	}
+	switch rng.Intn(5) {
+	case 0: // flip one role (never the leader)
+		i := rng.Intn(len(c.Peers))
+		if c.Peers[i].ID != c.Leader {
+			c.Peers[i].Learner = !c.Peers[i].Learner
+		}
+	case 1: // one more peer on a free store
+		for _, si := range rng.Perm(len(c.Stores)) {
+			if st := &c.Stores[si]; !used[st.ID] && len(c.Peers) < maxN {
+				c.Peers = append(c.Peers, PeerSpec{ID: uint64(ids[len(c.Peers)] + 1), Store: st.ID, Learner: rng.Intn(3) == 0})
+				break
+			}
+		}
+	case 2: // one peer fewer (never the leader)
+		i := rng.Intn(len(c.Peers))
+		if c.Peers[i].ID != c.Leader {
+			c.Peers = append(c.Peers[:i:i], c.Peers[i+1:]...)
+		}
+	}
+	rng.Shuffle(len(c.Peers), func(a, b int) { c.Peers[a], c.Peers[b] = c.Peers[b], c.Peers[a] })
 	return c
 }
 
